@@ -410,6 +410,14 @@ def _check_event_maps(repo: Repo, rep: Report):
                 lab = [l for mm, l in n.succ if i + 1 < len(path) and mm is path[i + 1]]
                 if lab and lab[0] == "true":
                     conds.append(norm(n.ast.test))
+                elif lab and lab[0] == "false":
+                    # the false edge of a negated test asserts the positive form (guard-clause spelling)
+                    t_ = n.ast.test
+                    if isinstance(t_, ast.UnaryOp) and isinstance(t_.op, ast.Not):
+                        conds.append(norm(t_.operand))
+                    elif isinstance(t_, ast.Compare) and len(t_.ops) == 1 and isinstance(t_.ops[0], (ast.IsNot, ast.NotEq, ast.NotIn)):
+                        pos = {ast.IsNot: ast.Is, ast.NotEq: ast.Eq, ast.NotIn: ast.In}[type(t_.ops[0])]
+                        conds.append(norm(ast.Compare(left=t_.left, ops=[pos()], comparators=t_.comparators)))
             if n.kind == "stmt" and isinstance(n.ast, ast.Assign) and norm(n.ast.targets[0]) == "event":
                 event = norm(n.ast.value)
         if event is not None:
